@@ -229,3 +229,54 @@ func H_C05_buffer() {
 		zz.Assert(atoi(v) == i+1, "C05: with a small outbound buffer the sequence numbers reach the wire out of order")
 	}
 }
+
+// H_C05_history: a multi-step history on one counter store in which the two directions carry
+// different numbers of messages. Session 1 (acceptor): logon; the same message object is sent three
+// times in a row (all three stay queued until the writer takes them); k further sends; j inbound
+// heartbeats. Then either a later session on the same store (mode 0) or a logout and a second logon
+// on the same session (mode 1), with the peer's Logon continuing its own numbering; one more send.
+// Every outbound message carries the next number. params: [mode, k, j]
+func H_C05_history() {
+	mode, k, j := zz.Param(0), zz.Param(1), zz.Param(2)
+	zz.Class("history/mode=" + strconv.Itoa(mode) + "/k=" + strconv.Itoa(k) + "/j=" + strconv.Itoa(j))
+	zz.TimerStub(true)
+	st := memory.NewStorage()
+	f := newAcceptor(st, 1, 60, 0, "0")
+	var w [][]byte
+	w = append(w, f.logon("CLI", "SRV", 1, 30)...)
+	zz.Assume(f.s.IsLogged())
+	same := fixgen.CreateTestRequest(string(zz.Bytes(2)))
+	for i := 0; i < 3; i++ {
+		zz.Assert(f.s.Send(same) == nil, "fixture: Send failed")
+	}
+	w = append(w, f.h.VerifOut()...) // the writer takes all three only now
+	for i := 0; i < k; i++ {
+		zz.Assert(f.s.Send(fixgen.CreateHeartbeat()) == nil, "fixture: Send failed")
+	}
+	w = append(w, f.h.VerifOut()...)
+	in := 2
+	for i := 0; i < j; i++ {
+		hb := fixgen.CreateHeartbeat()
+		setHdr(hb.Header(), "CLI", "SRV", in)
+		in++
+		w = append(w, f.serve(wire(hb))...)
+	}
+	f2 := f
+	if mode == 0 {
+		f2 = newAcceptor(st, 1, 60, 0, "0")
+	} else {
+		lo := fixgen.CreateLogout()
+		setHdr(lo.Header(), "CLI", "SRV", in)
+		in++
+		w = append(w, f.serve(wire(lo))...)
+	}
+	w = append(w, f2.logon("CLI", "SRV", in, 30)...)
+	zz.Assume(f2.s.IsLogged())
+	zz.Assert(f2.s.Send(fixgen.CreateHeartbeat()) == nil, "fixture: Send failed")
+	w = append(w, f2.h.VerifOut()...)
+	zz.Reach("done")
+	for i, o := range w {
+		v, _ := fieldOf(o, "34")
+		zz.Assert(atoi(v) == i+1, "C05: over a history with unequal traffic in the two directions the outbound numbers are not 1,2,3,... (message "+strconv.Itoa(i+1)+")")
+	}
+}
